@@ -674,3 +674,24 @@ func (a *Actor) Alive() bool {
 		return true
 	}
 }
+
+// PoolDuplicate takes 64 block buffers from storrent's shared pool and
+// reports whether the same buffer came out twice (a buffer that was released
+// twice has two owners from then on).  The buffers are not given back.
+func PoolDuplicate() string {
+	seen := map[*byte]bool{}
+	var held [][]byte
+	for i := 0; i < 64; i++ {
+		b := protocol.GetBuffer(16384)
+		if len(b) == 0 {
+			continue
+		}
+		if seen[&b[0]] {
+			return "the pool of 16 KiB block buffers handed out the same buffer twice: it was released twice, and two users now share it"
+		}
+		seen[&b[0]] = true
+		held = append(held, b)
+	}
+	_ = held
+	return ""
+}
